@@ -60,13 +60,13 @@ func InstantToString(val *dtpb.Instant) string {
 	if tm, err := InstantToTime(val); err == nil {
 		switch val.GetPrecision() {
 		case dtpb.Instant_SECOND:
-			return tm.Format("2006-01-02T15:04:05-07:00")
+			return tm.Format("2006-01-02T15:04:05"+zoneLayout(val.GetTimezone()))
 		case dtpb.Instant_MILLISECOND:
-			return tm.Format("2006-01-02T15:04:05.000-07:00")
+			return tm.Format("2006-01-02T15:04:05.000"+zoneLayout(val.GetTimezone()))
 		case dtpb.Instant_MICROSECOND:
 			fallthrough
 		default:
-			return tm.Format("2006-01-02T15:04:05.000000-07:00")
+			return tm.Format("2006-01-02T15:04:05.000000"+zoneLayout(val.GetTimezone()))
 		}
 	}
 	// Fall-back to a basic representation (this shouldn't happen unless timezone
@@ -89,19 +89,28 @@ func DateTimeToString(val *dtpb.DateTime) string {
 		case dtpb.DateTime_DAY:
 			return tm.Format("2006-01-02")
 		case dtpb.DateTime_SECOND:
-			return tm.Format("2006-01-02T15:04:05-07:00")
+			return tm.Format("2006-01-02T15:04:05"+zoneLayout(val.GetTimezone()))
 		case dtpb.DateTime_MILLISECOND:
-			return tm.Format("2006-01-02T15:04:05.000-07:00")
+			return tm.Format("2006-01-02T15:04:05.000"+zoneLayout(val.GetTimezone()))
 		case dtpb.DateTime_MICROSECOND:
 			fallthrough
 		default:
-			return tm.Format("2006-01-02T15:04:05.000000-07:00")
+			return tm.Format("2006-01-02T15:04:05.000000"+zoneLayout(val.GetTimezone()))
 		}
 	}
 
 	// Fall-back to a basic representation (this shouldn't happen unless timezone
 	// information is garbage, which is a developer-driven issue).
 	return fmt.Sprintf("DateTime(%v)", val.GetValueUs())
+}
+
+// zoneLayout returns the layout of the UTC offset: an element whose time zone
+// was given as "Z" is rendered with "Z", like the FHIR JSON it was parsed from.
+func zoneLayout(timezone string) string {
+	if timezone == "Z" {
+		return "Z07:00"
+	}
+	return "-07:00"
 }
 
 // DateToString converts the FHIR Date element into its string reprsentation
